@@ -14,7 +14,7 @@ EXTENDS ScaleLaw, TraceLib
 
 VARIABLE rc      \* <<>> or the last RandC observation
 
-TReset == IsEvent("Reset") /\ last' = <<>> /\ pick' = <<>> /\ rc' = <<>>
+TReset == IsEvent("Reset") /\ last' = <<>> /\ pick' = <<>> /\ rd' = <<>> /\ rc' = <<>>
 
 TPair == /\ IsEvent("Pair")
          /\ Ev.s \in Samplers /\ Ev.arg \in 0..Len(Decl[Ev.s])
@@ -22,17 +22,22 @@ TPair == /\ IsEvent("Pair")
             last' = IF k = "location"
                     THEN [s |-> Ev.s, arg |-> Ev.arg, kind |-> k, d |-> Ev.d, code |-> Ev.code]
                     ELSE [s |-> Ev.s, arg |-> Ev.arg, kind |-> k, f |-> Ev.f, code |-> Ev.code]
-         /\ pick' = <<>> /\ rc' = <<>>
+         /\ pick' = <<>> /\ rd' = <<>> /\ rc' = <<>>
 
 TInv == /\ IsEvent("Inv")
         /\ pick' = [cum |-> Ev.cum, r |-> Ev.r, tie |-> Ev.tie, out |-> Ev.out]
-        /\ last' = <<>> /\ rc' = <<>>
+        /\ last' = <<>> /\ rd' = <<>> /\ rc' = <<>>
 
 TRandC == /\ IsEvent("RandC")
           /\ rc' = [s |-> Ev.s, dom |-> Ev.dom, rt |-> Ev.rt, skip |-> Ev.skip]
-          /\ last' = <<>> /\ pick' = <<>>
+          /\ last' = <<>> /\ pick' = <<>> /\ rd' = <<>>
 
-TraceNext == TReset \/ TPair \/ TInv \/ TRandC
+\*   {"e":"Restricted","s":class,"inDom":[b,..],"idx":j,"dom":b}   (see RestrictOK)
+TRestricted == /\ IsEvent("Restricted")
+               /\ rd' = [s |-> Ev.s, inDom |-> Ev.inDom, idx |-> Ev.idx, dom |-> Ev.dom]
+               /\ last' = <<>> /\ pick' = <<>> /\ rc' = <<>>
+
+TraceNext == TReset \/ TPair \/ TInv \/ TRandC \/ TRestricted
 TraceInit == Init /\ rc = <<>> /\ l = 1
 TraceSpec == TraceInit /\ [][TraceNext]_<<lvars, rc, l>>
 
